@@ -157,9 +157,28 @@ def run_pairs(exe, progs, fuel=FUEL, never_path=None):
             except subprocess.TimeoutExpired:
                 one = {}
             mr[str(j[0])] = one.get(str(j[0]), dict(kind="modeldied", value="-", out=b"", clos="", raised=[]))
+    # programs made of several units: the reference evaluator on the UNLINKED units (elaborated by Never.Src.Mod.elaborate in
+    # Lean) must say what it says on the program linked by nevast.link_units (cross-check of the two elaborations)
+    uj = []
+    for jid, prog, args in progs:
+        if jid not in bad and isinstance(prog, dict) and "units" in prog:
+            try:
+                uj.append((str(jid) + "#units", nevast.units_sexpr(prog), args, fuel))
+            except nevast.Unsupported:
+                pass
+    ur = {}
+    if uj:
+        try:
+            ur, _ = run_model(uj, timeout=120)
+        except subprocess.TimeoutExpired:
+            ur = {}
     out = dict(bad)
     for jid, _, _ in ij:
         c, d = verdict(ir[jid], mr.get(str(jid)))
+        u, m = ur.get(str(jid) + "#units"), mr.get(str(jid))
+        if u is not None and m is not None and (u["kind"], u["value"], u["out"], u["clos"]) != (m["kind"], m["value"], m["out"], m["clos"]):
+            c, d = "disagree", "the Lean elaboration of the units (Model/SrcMod.lean) and the linked program differ: units %s %s out=%r | linked %s %s out=%r" % (
+                u["kind"], u["value"], u["out"][-120:], m["kind"], m["value"], m["out"][-120:])
         out[jid] = (c, d, ir[jid], mr.get(str(jid)))
     return out
 
@@ -347,6 +366,12 @@ def replay_file(path):
     try:
         exe = build_harness(d)
         src, se, args = parse_replay(path)
+        try:
+            # the SOURCE is the replayed input; its s-expression is re-derived with the current printer (a stored one may
+            # predate a change of the protocol, e.g. the marking of extent-name uses); the stored one is the fallback
+            se = nevast.prog_sexpr(nevast.parse_program(src, sample_module_loader))
+        except Exception:
+            pass
         ir, ierr = run_impl(exe, [("r", src, args)])
         mr, _ = run_model([("r", se, args, FUEL)])
         c, det = verdict(ir["r"], mr.get("r"))
@@ -721,6 +746,60 @@ def report_disagreement(rep, exe, jid, p, args, det):
     rep.violation("disagree_%s" % jid, replay_text(
         "the real pipeline and the reference evaluator disagree (shrunk from generated program %s)" % jid, q, args, r[1],
         extra="# stderr: %s\n" % ierr[-300:].replace("\n", " | ")), True)
+
+def module_stream(rep, exe, seed, n, tag="m"):
+    """generated MULTI-UNIT programs (src_modgen): real pipeline on the files = S on the linked program = S on the unlinked
+    units elaborated in Lean"""
+    import src_modgen
+    rng = Rng(seed ^ 0x5eed)
+    mdir = scratch_dir("modstream")
+    st = dict(programs=0, agree=0, disagree=0, rejected=0, other=0, units=0, with_output=0)
+    def alpha(i):
+        s = ""
+        while True:
+            s = chr(97 + i % 26) + s; i //= 26
+            if i == 0:
+                return "m" + s + "x"
+    try:
+        progs, texts = [], {}
+        for i in range(n):
+            main, mods = src_modgen.generate(rng.fork(), alpha(i))
+            for mn, text in mods.items():
+                with open(os.path.join(mdir, mn + ".nev"), "w") as fh:
+                    fh.write(text)
+            try:
+                p = nevast.parse_program(main, lambda nm, mods=mods: mods.get(nm))
+            except (nevast.Unsupported, nevast.ParseError) as e:
+                st["other"] += 1; continue
+            jid = "%s%d" % (tag, i)
+            progs.append((jid, p, [])); texts[jid] = (main, mods)
+            st["units"] += len(p["units"])
+        reported = 0
+        for k in range(0, len(progs), 60):
+            res = run_pairs(exe, progs[k:k + 60], never_path=mdir)
+            for jid, p, _ in progs[k:k + 60]:
+                c, det, i, mo = res[jid]
+                st["programs"] += 1
+                if mo and mo["out"]:
+                    st["with_output"] += 1
+                if c == "agree":
+                    st["agree"] += 1
+                elif c == "rejected":
+                    st["rejected"] += 1
+                elif c == "disagree":
+                    st["disagree"] += 1
+                    if reported < 3:
+                        reported += 1
+                        main, mods = texts[jid]
+                        rep.violation("modules_%s" % jid, "multi-unit program: real pipeline / reference evaluator (linked, and elaborated from the units in Lean) disagree\n# %s\n%s\n%s" % (
+                            det, "\n".join("# ---- %s.nev\n%s" % (mn, t) for mn, t in mods.items()), "# ---- main\n" + main), True)
+                else:
+                    st["other"] += 1
+        if st["rejected"] >= 3:
+            rep.violation("modules_rejected", "%d of %d generated multi-unit programs are rejected by the real compiler" % (st["rejected"], st["programs"]), False)
+    finally:
+        shutil.rmtree(mdir, ignore_errors=True)
+    return st
 
 def sample_module_loader(name):
     """`use name` of a sample program: /repo/sample/lib/name.nev (what NEVER_PATH points the real scanner at)"""
